@@ -769,6 +769,81 @@ class _PeekLog(io.BytesIO):
         return d
 
 
+class _SeekLog(io.BytesIO):
+    """Seekable binary stream WITHOUT peek() that logs seek() calls (io.BytesIO has no peek)."""
+
+    def __init__(self, data, pos):
+        super().__init__(data)
+        super().seek(pos)
+        self.seeks = []
+
+    def seek(self, pos, whence=0):
+        self.seeks.append((pos, whence))
+        return super().seek(pos, whence)
+
+
+class _PeekSeekLog(_SeekLog):
+    """... and one WITH peek()."""
+
+    def peek(self, n=0):
+        pos = self.tell()
+        d = io.BytesIO.read(self)
+        io.BytesIO.seek(self, pos)
+        return d
+
+
+class _NoSeek(io.RawIOBase):
+    """Non-seekable raw stream over data[pos:]."""
+
+    def __init__(self, data, pos):
+        self.src = io.BytesIO(data[pos:])
+
+    def readable(self):
+        return True
+
+    def readinto(self, b):
+        d = self.src.read(len(b))
+        b[:len(d)] = d
+        return len(d)
+
+
+def observe_position(mod):
+    """open_stream / find_adapter_for_stream on file objects that are NOT at position 0: the stream handed back must deliver
+    exactly the bytes from the caller's position on, and the object must never be sought to another absolute position.
+    -> (fact, number of probes, description of the first departure or None)"""
+    import gzip
+    frame = header_frame()
+    payloads = {"plain": frame + b"\x00\x00\x00\x01\xc0", "gzip": gzip.compress(frame + b"\x00\x00\x00\x01\xc0")}
+    n = 0
+    for pname, payload in payloads.items():
+        for plen in (1, 7, 19, 8200):
+            data = b"\xa5" * plen + payload
+            for kind, mk in (("seekable without peek()", lambda: _SeekLog(data, plen)), ("seekable with peek()", lambda: _PeekSeekLog(data, plen)),
+                             ("not seekable", lambda: _NoSeek(data, plen))):
+                for fname in ("open_stream", "find_adapter_for_stream"):
+                    n += 1
+                    obj = mk()
+                    try:
+                        if fname == "open_stream":
+                            fp = mod.open_stream(obj, "rb")
+                            got = fp.read()
+                            want = frame + b"\x00\x00\x00\x01\xc0"
+                        else:
+                            if pname != "plain":
+                                continue
+                            fp, name = mod.find_adapter_for_stream(obj)
+                            got = (name, fp.read())
+                            want = ("stream", payload)
+                    except Exception as e:  # noqa
+                        return False, n, "%s on a %s object positioned at %d (%s payload) raised %s" % (fname, kind, plen, pname, type(e).__name__)
+                    if got != want:
+                        return False, n, "%s on a %s object positioned at %d (%s payload) does not continue from that position" % (fname, kind, plen, pname)
+                    bad = [sk for sk in getattr(obj, "seeks", []) if sk[1] == 0 and sk[0] != plen]
+                    if bad:
+                        return False, n, "%s seeks a %s object positioned at %d to absolute position %d" % (fname, kind, plen, bad[0][0])
+    return True, n, None
+
+
 def _flag_settings(live):
     """all as installed; each available flag off alone; all off"""
     out = [dict(live)]
@@ -1326,6 +1401,7 @@ def gen_detect():
     deps = observe_flag_deps(base)
     _cross_check("HAS_* import block", lambda: import_block_facts(base),
                  lambda r: None if all(set(r[f]) == set(deps[f]) for f in FLAGS) else "recognised %r, observed %r" % (r, deps), notes)
+    pos_ok, pos_probes, pos_why = observe_position(base)
     del SHARED[:]
     SHARED.extend(shared_codec_state(base))      # not observable from single calls: read from the source, shape-independent
 
@@ -1365,6 +1441,9 @@ def gen_detect():
     if SHARED:
         out += "     (* NOT per stream: %s *)\n" % "; ".join("%s uses module-level %s" % x for x in SHARED)
     out += "     f_private_codec_state := %s;\n" % cbool(not SHARED)
+    if not pos_ok:
+        out += "     (* observed: %s *)\n" % pos_why.replace("*)", "* )")
+    out += "     f_position_preserved := %s;   (* %d probes *)\n" % (cbool(pos_ok), pos_probes)
     out += "     f_header_read_len := header_read_len; f_header_test := header_test; f_flag_deps := flag_deps;\n"
     out += "     f_ext_chain := ext_chain; f_path_fallback_sniffs := %s; f_stdin_fallback_sniffs := %s;\n" % (
         cbool(op_["fallback"][0]), cbool(op_["fallback"][1]))
